@@ -2144,8 +2144,12 @@ class Transaction(object):
             p = Path(filename)
             if not p.parent or str(p.parent) == '.':
                 p = Path(BCL_DATA_DIR, filename)
+        # The file is meant to be handed on (co-signers, online machine): store a copy without the private keys of the inputs
+        t = deepcopy(self)
+        for i in t.inputs:
+            i.keys = [k.public() if k.is_private else k for k in i.keys]
         f = p.open('wb')
-        pickle.dump(self, f)
+        pickle.dump(t, f)
         f.close()
 
     def shuffle_inputs(self):
